@@ -56,6 +56,10 @@ def main():
             return base.to_wkt()
         if route == "dict":
             return base.to_json_dict()
+        if route == "projdict":
+            if 32600 < code < 32800:
+                return dict({"proj": "utm", "zone": code % 100, "datum": "WGS84", "units": "m", "no_defs": True}, **({"south": True} if code > 32700 else {}))
+            return base.to_dict()
         if route == "jsonstr":
             return pyproj.CRS.from_dict(base.to_json_dict()).srs
         if route == "obj_epsg":
